@@ -39,6 +39,7 @@ F=[
  ("do not panic under --respect-ignores for a path outside", ['C16','C17'], "`--respect-ignores /abs/path/outside/cwd/x.lua` (also as --stdin-filepath) with a .styluaignore in the working directory: panic in the ignore matcher, exit 101"),
  ("do not let --glob bypass .styluaignore", ['C16'], "`-g '**/*.lua' .` formatted hidden files and files excluded by .styluaignore"),
  ("accept call_parentheses = Input in .editorconfig", ['C20'], "`.editorconfig` with `call_parentheses = Input`: silently ignored (the default `Always` applied) although stylua.toml and --call-parentheses accept the value"),
+ ("keep a space after the access modifier of a Luau array type", ['C02'], "Luau `type T = { read number }` -> `{ readnumber }` (another type); on a line of its own the indentation went between modifier and type"),
 ]
 by={}
 for sub,props,what in F:
